@@ -280,6 +280,7 @@ RULE = (
     "error; SLSQP witnesses (verified feasible) for the minimal variance; closed form K^2-propagation for the reported variance. "
     "Non-trivial = the variance optimum is below the ordinary fit's variance, an L1 request is active, or a variance matrix is propagated through K."
     " batch_size in {None,2,3,full} with 1-3 targets; a third of the cases repeat the identical call on the same estimator / arrays (results equal, the variance matrix of the caller byte-identical); a fifth have proportional sources."
+    " Function entry: rounded targets (in half of the cases also rounded K and baseline) as int64 and as floats give equal intensities."
 )
 
 PROP = Prop(
